@@ -623,10 +623,6 @@ fn parse_syn(input: &Value) -> Option<(Shape, Vec<Node>, Vec<Option<Shape>>, usi
     }
     let term = shape_of_name(a[0].as_str()?)?;
     let (chain, mats) = build_syn(a[1].as_array()?)?;
-    if chain.is_empty() {
-        // exec_par indexes chain[0]; the empty chain is not a plan
-        return None;
-    }
     Some((term, chain, mats, a[2].as_u64()? as usize))
 }
 
@@ -1009,6 +1005,8 @@ fn gen_markers(_seed: u64, _tier: Tier, em: &mut Emitter) {
         emit_syn_case(em, Shape::KV, &[j_mat(Shape::KV, &rows)], parts, t);
         emit_syn_case(em, Shape::KV, &[j_mat(Shape::KV, &rows), j_mat(Shape::KV, &other)], parts, t);
         emit_syn_case(em, Shape::KV, &[src.clone()], parts, t);
+        // the empty chain: both engines panic (unwrap of no buffer / chain[0]), every pass returns it
+        emit_syn_case(em, Shape::KV, &[], parts, t);
         // a second Source in the middle of a chain is not a marker: no pass may touch it
         emit_syn_case(em, Shape::KV, &[src.clone(), op1.clone(), j_src(Shape::KV, &other), op2.clone()], parts,
                       &["marker", "mid_source"]);
